@@ -245,7 +245,8 @@ def write_part_files(d, tag, part, spec, lab, x):
             obs_cols['unrelated'] = [f'u{k % 3}' for k in range(len(rows))]
         p = part_file_path(d, tag, fi, part)
         with quiet():
-            materialize.write_h5ad(p, x[rows], [lab.cells[i] for i in rows], spec['genes'], enc=f['enc'], obs_cols=obs_cols)
+            materialize.write_h5ad(p, x[rows], [lab.cells[i] for i in rows], spec['genes'], enc=f['enc'], obs_cols=obs_cols,
+                                   obs_index_name=spec.get('obs_index_name'), var_index_name=spec.get('var_index_name'))
         paths.append(p)
     return paths
 
